@@ -11,7 +11,7 @@
 namespace Nstd.Sync.Cfg
 
 inductive PCall | mutexLock | mutexTryLock | mutexUnlock | condWait | condTimedWait | condSignal | condBroadcast
-  | threadCreate | threadJoin
+  | threadCreate | threadJoin | semPost | semWait | semTryWait
 deriving DecidableEq, Repr
 
 /-- what a member function returns: nothing, a bool, the literal 0 (`Thread::join` without a handle), or the value handed
